@@ -375,6 +375,12 @@ func (x *Exec) newIterator(st *State, h *storeHandle, reverse bool, pos string) 
 			}
 		}
 	}
+	if lastIsPrefix && fam != nil && x.root != nil && x.root.ExactPrefix[fam.Name] {
+		// the contract assumes that the provided components are complete: no other key of the family has them as a
+		// byte prefix of its own components
+		lastIsPrefix = false
+		x.e.note("ASSUMED by the contract (exact-prefix " + fam.Name + "): a byte prefix ending in a complete " + fam.Name + " component selects exactly the keys with that component (store indexes are prefix-free)")
+	}
 	fixedCond := func(a int, f T, k string) string {
 		if lastIsPrefix && a == len(fixed)-1 {
 			return fmt.Sprintf("(str.prefixof %s (K_%s_%d %s))", f.S, fam.Name, a, k)
